@@ -231,6 +231,14 @@ class Lexer:
                     0,
                     filename,
                 )
+            except LookupError:
+                raise exceptions.CompileException(
+                    "Unknown encoding '%s'" % parsed_encoding,
+                    text.decode("utf-8", "ignore"),
+                    0,
+                    0,
+                    filename,
+                )
 
         return parsed_encoding, text
 
